@@ -123,6 +123,12 @@ class Ref:
         return f'&{self.target!r}'
 
 
+class Fork:
+    """several outcomes of a modelled / inlined call: [(extra path conditions, heap or None, value)]"""
+    def __init__(self, outcomes):
+        self.outcomes = list(outcomes)
+
+
 class Call:
     """result of a call left uninterpreted"""
     def __init__(self, callee, args, seq):
@@ -425,7 +431,7 @@ class Interp:
         if re.match(r'(copy|move|const|no_retag) ', t):
             return self.operand(t, p)
         # ADT constructors:  Path::Variant(args) | Path::Variant | Path { f: v, .. }
-        if '::<(' in t and not t.startswith('{'):
+        if '::<' in t and '(' in t and not t.startswith('{'):
             t = strip_generics(t)          # tuple types inside the generic arguments would be read as the argument list
         m = re.fullmatch(r'([\w:<>, &\'\[\]]+?)\((.*)\)', t)
         if m and '::' in m.group(1):
@@ -449,7 +455,7 @@ class Interp:
         return self.paths
 
     def _run(self, bb, p, depth, max_paths):
-        if depth > 500 or len(self.paths) > max_paths:
+        if depth > getattr(self, 'max_depth', 500) or len(self.paths) > max_paths:
             raise MirError('function is not loop-free or has too many paths')
         if bb in self.fn.cleanup:
             p.end = 'unwind'
@@ -532,6 +538,24 @@ class Interp:
                     self.paths.append(p)
                     return
                 val = self.call_model(c, self, p) if self.call_model and self.call_model.__code__.co_argcount >= 3 else (self.call_model(c, self) if self.call_model else None)
+                if isinstance(val, Fork):
+                    for pcs, heap, v in val.outcomes:
+                        q = p.fork()
+                        q.pc += [x for x in pcs if not z3.is_true(x)]
+                        if heap is not None:
+                            q.heap = heap
+                        if any(z3.is_false(z3.simplify(x)) for x in pcs):
+                            continue
+                        if pcs and not all(z3.is_true(x) for x in pcs):
+                            sv = z3.Solver()
+                            sv.set('timeout', 5000)
+                            sv.add(*q.pc)
+                            if sv.check() == z3.unsat:
+                                continue
+                        q.calls.append(c)
+                        q.env[dst] = v
+                        self._run(nxt, q, depth + 1, max_paths)
+                    return
                 p.calls.append(c)
                 p.env[dst] = c if val is None else val
                 c.result = p.env[dst]
